@@ -109,6 +109,19 @@ def gen_cases(ctx):
         d["vector"] = dict(c["vector"], seq=rs(c["vector"]["seq"]))
         d["modules"] = [dict(m, seq=rs(m["seq"])) for m in c["modules"]]
         extra.append(d)
+    # record identifiers are not part of the overhang graph: the same cases with records that share an id
+    # (two exports of the same name) or carry none
+    for c in rng.sample(base, min(len(base), 200 if ctx.quick else 2000)):
+        mode = rng.choice(["same-id", "no-id", "vector-id"])
+        d = dict(c, scope="shared-ids")
+        if mode == "same-id":
+            d["modules"] = [dict(m, id="Exported") for m in c["modules"]]
+        elif mode == "no-id":
+            d["modules"] = [dict(m, id=None) for m in c["modules"]]
+            d["vector"] = dict(c["vector"], id=None)
+        else:
+            d["modules"] = [dict(m, id="vector") for m in c["modules"]]
+        extra.append(d)
     return cases + extra
 
 
